@@ -864,6 +864,10 @@ impl Manager {
         // links the corresponding Gate will be moved to the pending
         // collection to be handled later by spawn(). For unresolvable links
         // the corresponding Gate will be dropped here.
+        //
+        // The pending collection is only replaced once all links are known
+        // to be resolvable, so that a rejected config leaves nothing behind.
+        let mut pending_gates = HashMap::new();
         for (name, load) in gates {
             if let Some(mut gate) = load.gate {
                 gate.set_tracer(self.tracer.clone());
@@ -880,11 +884,11 @@ impl Manager {
                     }
                     return Err(Terminate::error());
                 } else {
-                    self.pending_gates
-                        .insert(name.clone(), (gate, load.agent));
+                    pending_gates.insert(name.clone(), (gate, load.agent));
                 }
             }
         }
+        self.pending_gates = pending_gates;
 
         // At this point self.pending contains the newly created but
         // disconnected Gates, and GateAgents for sending commands to them,
